@@ -448,15 +448,15 @@ def c11(out):
 # --------------------------------------------------------------------- C13
 @check("C13")
 def c13(out):
-    out.rule = ("case index -> (init function of six, emulated CPU model of eleven incl. two where XGETBV is emulated by single-stepping (XCR0=3, XCR0=1) and an SSE2-only K8-class CPU, trapped x4 / real CPUID x1); in each case the init is called 24 times through an assembly trampoline with rcx, rdx, rsi, r8-r11, rbx, rax "
+    out.rule = ("case index -> (init function of six, emulated CPU model of thirteen incl. two where XGETBV is emulated by single-stepping (XCR0=3, XCR0=1) and an SSE2-only K8-class CPU, trapped x4 / real CPUID x1); in each case the init is called 24 times through an assembly trampoline with rcx, rdx, rsi, r8-r11, rbx, rax "
                 "set to 0,1,2,3,7,0x100,0xdeadbeef,~0 and random values, handle pre-filled 0x00/0xCC, stack painted; every CPUID executed is trapped (arch_prctl ARCH_SET_CPUID) and logged with its leaf and sub-leaf register; "
                 "oracle: selected back end (from the handle) == widest back end compiled in and supported by the served CPUID table + real XCR0, identical on every call, leaf-7 sub-leaf register independent of the "
                 "calling context, parallel_size behaves as the selected back end's batch; for CPU/OS models without usable AVX a whole object life cycle is single-stepped (EFLAGS.TF) and no VEX/EVEX-encoded instruction may execute in library code; on the SSE2-only model no SSE3/SSSE3/SSE4/POPCNT-class instruction either (opcode maps 0F38/0F3A etc.); inits on models with OSXSAVE clear are single-stepped and must not execute XGETBV. distinct = distinct (init, model, register context).")
-    builds = [("prod", 1, 1, n(out, 1320, 33000))]
+    builds = [("prod", 1, 1, n(out, 1560, 39000))]
     if out.tier == "thorough":
         builds += [("clang", 1, 1, 3600), ("prod+O0", 1, 1, 3600), ("prod+NOAVX2", 1, 0, 1800), ("prod+NOSIMD", 0, 0, 1800), ("clang+O1", 1, 1, 1800), ("prod+O1", 1, 1, 1800)]
     else:
-        builds += [("prod+O0", 1, 1, 660), ("clang", 1, 1, 660), ("prod+NOSIMD", 0, 0, 330)]
+        builds += [("prod+O0", 1, 1, 780), ("clang", 1, 1, 780), ("prod+NOSIMD", 0, 0, 390)]
     for vname, h128, h256, cases in builds:
         exe = build_driver("drv_cpuid", ["drv_cpuid.c"] + HIST, vname)
         run_sharded(out, exe, ["--has128", str(h128), "--has256", str(h256)], vname, cases)
@@ -709,6 +709,6 @@ def c20(out):
     out.rule = ("the three example tools are built from the working tree (shipped flags and ASan/UBSan) and run on generated files: lengths 0,1,B-1,B,B+1,1023..1025,2047..2049,3000 and random up to 64 KiB, both block sizes, "
                 "every legal key length for the tool, counter/tweak absent or of length 1..B with carry chains (skinny-tweak's per-block increment crosses bytes and the 1024-byte chunk), hex spelled in five styles; "
                 "output must have the right length and equal the library API driven directly by an oracle program (whole file, one call) which must equal the reference model; a second run (-d for tweak/ecb) must restore the input; "
-                "29 classes of invalid invocations per tool/block size must exit non-zero, not crash, and leave no output file. distinct = distinct (tool, block, length, key, counter/tweak, direction) or invalid argument vectors.")
+                "31 classes of invalid invocations per tool/block size must exit non-zero, not crash, and leave no output file. distinct = distinct (tool, block, length, key, counter/tweak, direction) or invalid argument vectors.")
     m.run(out)
     out.assumptions += ["tools run as subprocesses on temporary files in a private directory", "oracle program uses the library from the same build; the reference model is compared as well"]
